@@ -20,6 +20,11 @@ type Prog struct {
 	Run   func() string
 }
 
+// Deterministic names the programs whose outcome does not depend on the schedule (one goroutine, or every
+// order leads to the same result): for these a model that shows a second outcome is wrong, whatever the sample.
+var Deterministic = map[string]bool{"buffered-fifo": true, "close-then-drain": true, "send-after-close-panics": true,
+	"close-twice-panics": true, "close-nil-panics": true, "select-nil-channel-never": true, "close-detaches-parked-sender": true, "atomic-value-panics": true, "rwmutex-try": true, "cond-signal-broadcast": true, "once-value": true}
+
 type rec struct {
 	mu sync.Mutex
 	s  []string
@@ -121,6 +126,21 @@ var Programs = []Prog{
 		go func() { v, ok := <-c; res <- fmt.Sprint(v, ok) }()
 		close(c)
 		return <-res
+	}},
+	{"close-detaches-parked-sender", true, func() string {
+		// whether the sender is parked when the channel is closed or arrives afterwards, it panics, and a receive
+		// made after the close sees a closed, empty channel - never the parked sender's value
+		var r rec
+		c := make(chan int)
+		var wg sync.WaitGroup
+		wg.Add(1)
+		go func() { catch(&r, func() { c <- 1; r.add("sent") }); wg.Done() }()
+		time.Sleep(2 * time.Millisecond)
+		close(c)
+		v, ok := <-c
+		r.add("recv %v %v", v, ok)
+		wg.Wait()
+		return r.sorted()
 	}},
 	{"close-vs-sender", false, func() string {
 		var r rec
@@ -399,6 +419,66 @@ var Programs = []Prog{
 		go func() { atomic.StoreInt32(&y, 1); r2 = atomic.LoadInt32(&x); wg.Done() }()
 		wg.Wait()
 		return fmt.Sprint(r1, r2)
+	}},
+	{"rwmutex-try", true, func() string {
+		var m sync.RWMutex
+		a := fmt.Sprint(m.TryRLock(), m.TryRLock(), m.TryLock())
+		m.RUnlock()
+		m.RUnlock()
+		b := fmt.Sprint(m.TryLock(), m.TryLock(), m.TryRLock())
+		m.Unlock()
+		return a + " " + b + " " + fmt.Sprint(m.TryLock())
+	}},
+	{"cond-signal-broadcast", true, func() string {
+		var mu sync.Mutex
+		c := sync.NewCond(&mu)
+		ready, woken := 0, 0
+		var wg sync.WaitGroup
+		for i := 0; i < 3; i++ {
+			wg.Add(1)
+			go func() {
+				mu.Lock()
+				ready++
+				for ready < 100 {
+					c.Wait()
+				}
+				woken++
+				mu.Unlock()
+				wg.Done()
+			}()
+		}
+		for {
+			mu.Lock()
+			if ready == 3 {
+				ready = 100
+				c.Signal()
+				c.Broadcast()
+				mu.Unlock()
+				break
+			}
+			mu.Unlock()
+			time.Sleep(time.Millisecond)
+		}
+		wg.Wait()
+		return fmt.Sprint(woken)
+	}},
+	{"once-value", true, func() string {
+		n := 0
+		f := sync.OnceValue(func() int { n++; return 40 + n })
+		return fmt.Sprint(f(), f(), n)
+	}},
+	{"atomic-value-panics", true, func() string {
+		var r rec
+		var v atomic.Value
+		catch(&r, func() { v.Store(nil) })
+		r.add("loaded %v", v.Load())
+		v.Store(1)
+		catch(&r, func() { v.Store("s") })
+		catch(&r, func() { v.Swap(nil) })
+		r.add("swapped %v", v.Swap(2))
+		r.add("cas %v %v", v.CompareAndSwap(1, 3), v.CompareAndSwap(2, 3))
+		r.add("loaded %v", v.Load())
+		return r.String()
 	}},
 	{"atomic-cas-winner-unique", true, func() string {
 		var flag, winners int32
